@@ -1001,10 +1001,13 @@ def run(ctx):
         per, found = state["hs"]
         for (key, what), line, c, m in found:
             if not any(k.get("key") == key and k.get("status") == "open" for k in ctx.known):
-                return key, what, dict(op=line, impl_output=c, model_output=m)
+                return "proof-obligation-broken:" + key, what + " [found while searching after a proof obligation / tie-T equation stopped checking]", dict(op=line, impl_output=c, model_output=m)
         return None
 
     ok = vlib.proof_stage(ctx, ["SqiProps.C17"], searcher=searcher, extra_targets=["driver"])
+    if not ok:
+        ctx.obligation("lake build SqiProps.C17 (theorems + tie-T equations `generated from C = hand model`, SqiProofs.C17.Translated)", False,
+                       "a proof obligation no longer checks: see the replay with broken_obligations")
     if "hs" not in state:
         state["hs"] = harness_stage(ctx, exe, 10**4 if ctx.quick else 10**6)
     # represent_integer at the two other security levels (separate harness binaries: the level is a compile-time choice)
